@@ -133,9 +133,26 @@ func absCond(c ssa.Value, env map[*ssa.Phi]ssa.Value, o AbsOracle) (bool, bool) 
 		if rel, ok := TimeRelOf(x); ok {
 			return o.TimeGreater(rel.L, rel.R)
 		}
+		// a loop-free predicate helper: executed on the same abstract state with
+		// its parameters standing for the arguments
+		if h := ModuleCallee(x.Common()); h != nil && absDepth < MaxSummaryDepth && h.Signature.Results().Len() == 1 {
+			val, known := false, false
+			WithSubst(FrameSubst(x.Common(), h), func() {
+				absDepth++
+				defer func() { absDepth-- }()
+				run := AbsExec(h, o)
+				if run.Err != "" || run.Return == nil {
+					return
+				}
+				val, known = absCond(run.Return.Results[0], run.Env, o)
+			})
+			return val, known
+		}
 	}
 	return false, false
 }
+
+var absDepth int
 
 // ResolveEnv follows phis through the executed path's environment.
 func ResolveEnv(v ssa.Value, env map[*ssa.Phi]ssa.Value) ssa.Value {
